@@ -15,7 +15,7 @@ type csvCfg struct {
 
 func c09Config() csvCfg {
 	seps := [][]rune{{','}, {';', '\t'}, {',', ';'}}[vChoice("cfg.seps", 3)]
-	quotes := [][]rune{{'"'}, {'"', '\''}}[vChoice("cfg.quotes", 2)]
+	quotes := [][]rune{{'"'}, {'"', '\''}, {'«'}}[vChoice("cfg.quotes", 3)]
 	eol := [][]rune{{'\n'}, {'\r'}, {'\r', '\n'}, {'\n', '\r'}}[vChoice("cfg.eol", 4)]
 	return csvCfg{seps, quotes, eol}
 }
